@@ -387,7 +387,13 @@ func runLeg(l leg, tier string, batch uint64, workers int, scratch string) (*leg
 						}
 					}
 					if found == nil {
-						return nil, fatal2("worker %d of %s reported %s at run %d; it reproduces neither as a plan in a fresh process nor by re-running the worker's run history", i, l.scenario, f.Fail, f.RunIndex)
+						// Not a verdict by itself. Do not abort the batch: another run, or
+						// another leg, may decide the same defect replayably (sync.Pool, for
+						// one, drops a quarter of what it is given at random in a -race
+						// build: a violation that lives in a pooled buffer is real and yet
+						// need not repeat). If nothing is confirmed the check ends as exit 2.
+						lr.unreproduced = append(lr.unreproduced, fmt.Sprintf("worker %d run %d seed %d: %s — reproduces neither as a plan in a fresh process nor by re-running the worker's run history", i, f.RunIndex, f.Seed, f.Fail))
+						continue
 					}
 					v.Fail, v.Plan, v.Min = ff, fp, false
 					v.History = &engine.History{Tier: tier, Indices: found, Note: "the plan of the last run passes in a fresh process; the violation needs the state left behind by the earlier runs listed here (same process, in this order)"}
@@ -764,7 +770,7 @@ func cmdSupervise(args []string) int {
 		if len(lr.unreproduced) > 0 && exit == 0 {
 			// nothing else failed: the report stands on the worker's log alone and
 			// cannot be replayed — that is harness trouble, not a verdict
-			return fatal2("%d race report(s) by %s workers could not be reproduced in a fresh process under 24 layout variants and no other check failed", len(lr.unreproduced), lr.leg.scenario)
+			return fatal2("%d report(s) by %s workers could not be reproduced in a fresh process (for race reports: under 24 layout variants and as a run history) and no other check failed", len(lr.unreproduced), lr.leg.scenario)
 		}
 	}
 	// ---- evidence
